@@ -135,6 +135,8 @@ Cons(m, g, ev) ==
          \A a \in ShDecreased(g, ev) :
             LET taken == g.sh[a] - obs.sh[a] IN
             \/ o.op = "stransfer" /\ a = o.own /\ a \in o.auth
+            \* a holder spending through transfer_from as his own spender authorizes the debit himself
+            \/ o.op = "stransfer_from" /\ a = o.own /\ o.oper = o.own /\ a \in o.auth
             \/ o.op \in Leave /\ a = o.own /\ o.oper = o.own /\ a \in o.auth
             \/ /\ o.op \in Leave \cup {"stransfer_from"} /\ a = o.own /\ o.oper # o.own
                /\ o.oper \in o.auth
